@@ -6,6 +6,8 @@ cd /repo
 if [ ! -f _build/build.ninja ] && [ ! -f _build/Makefile ]; then cmake -G Ninja -B _build >/dev/null; fi
 cmake --build _build >/dev/null 2>&1 || cmake --build _build
 ctest --test-dir _build -j8 --timeout 900 2>&1 | tee /tmp/verif-baseline.log | tail -15
+# /repo tracks its _build directory: put the two ninja bookkeeping files the build just rewrote back, so that the tree stays clean
+git -C /repo checkout -- _build/.ninja_deps _build/.ninja_log 2>/dev/null || true
 python3 - <<'PY'
 import json,re,sys
 base=json.load(open('/root/.vp/BASELINE.json'))
